@@ -31,6 +31,8 @@ fn cfg_for(config: &str) -> GenCfg {
     "td-crash" => { c.crash = true; }
     "x-hidden-td" | "x-overlap-td" | "x-cycle-td" | "x-any-td" => { c.class = Class::X; }
     "x-hidden-bu" | "x-overlap-bu" | "x-cycle-bu" | "x-any-bu" => { c.class = Class::X; c.bottom_up = 50; c.td_between = true; }
+    "id-td" => { c.wrappers = true; }
+    "id-bu" => { c.wrappers = true; c.bottom_up = 60; c.all_roots_td = true; }
     "v-td" => { c.class = Class::V; }
     "v-td-crash" => { c.class = Class::V; c.crash = true; }
     "v-bu-big" => { c.class = Class::V; c.bottom_up = 70; c.td_between = true; c.big = true; }
